@@ -175,6 +175,7 @@ impl SendBufferPool {
       // Copy data into the registered buffer
       slot.as_mut_slice()[..data_to_copy.len()].copy_from_slice(data_to_copy);
       slot.in_kernel_use = true; // Mark as given to kernel
+      crate::verif_event!("zc.acquire", "\"id\":{},\"how\":\"copy\"", buffer_id.0);
 
       trace!(
         "SendBufferPool: Acquired buffer {:?} for {} bytes.",
@@ -195,6 +196,7 @@ impl SendBufferPool {
     if let Some(id) = inner.free_ids.pop_front() {
       let slot = &mut inner.pool[id.0 as usize];
       slot.in_kernel_use = true;
+      crate::verif_event!("zc.acquire", "\"id\":{},\"how\":\"lease\"", id.0);
       Some(SendBufferLease {
         id,
         ptr: slot.as_mut_slice().as_mut_ptr(),
@@ -213,6 +215,7 @@ impl SendBufferPool {
     let mut inner_guard = self.inner.lock();
     if let Some(slot_index) = inner_guard.pool.iter().position(|s| s.id == id) {
       let slot = &mut inner_guard.pool[slot_index];
+      crate::verif_event!("zc.release", "\"id\":{},\"in_use\":{}", id.0, slot.in_kernel_use);
       if slot.in_kernel_use {
         slot.in_kernel_use = false;
         // Check if it's already in free_ids to prevent duplicates, though ideally it shouldn't be.
